@@ -59,10 +59,15 @@ void h_wrong_type_p (void) { MIR_type_t t; int r = wrong_type_p (t); if (r) REAC
 
 /* ---- 3. MIR_new_insn_arr: arity and prototype checks ---- */
 static int vp_wf, vp_expected_err, vp_errors_seen;
+static unsigned long vp_allowed_errs_fwd;
+#define vp_allowed_errs vp_allowed_errs_fwd
 static void vp_on_error (int code) {
   vp_errors_seen++;
   __CPROVER_assert (!vp_wf, "postcondition: the error callback is called only for ill-formed IR");
-  __CPROVER_assert (code == vp_expected_err, "postcondition: the error code is the documented one for this violation");
+  if (vp_expected_err == -2)
+    __CPROVER_assert ((vp_allowed_errs >> code) & 1, "postcondition: the error code is one the documentation gives for a rule the instruction violates");
+  else
+    __CPROVER_assert (code == vp_expected_err, "postcondition: the error code is the documented one for this violation");
   REACH ("error path");
 }
 /* The arity table ctx->insn_nops is derived from insn_descs by check_and_prepare_insn_descs (count the
@@ -135,3 +140,103 @@ void h_new_insn_call (void) {
   ENS (insn->nops == nops, "created call carries its operand count");
   if (vp_proto.vararg_p && nops > need) REACH ("vararg tail"); else REACH ("exact");
 }
+
+/* ---- 4. MIR_finish_func: per-operand mode / type / output checks on one instruction ----
+   The function under construction holds [insn under test; ret].  The opcode is a constant of the entry
+   point; every operand has a symbolic form (register of each type or undeclared, each immediate kind,
+   memory of any type with any base/index register, label, reference, string).  find_rd_by_reg (hash
+   tables, string interning) is replaced by a model answering from the ghost register file.
+   vp_wf is the well-formedness of the instruction per MIR.md; the set of error codes the documentation
+   allows for the violated rules is vp_allowed_errs (bit per error code). */
+#ifdef VP_FINISH
+static struct MIR_func vp_func;
+/* storage laid out as create_insn lays it out (struct MIR_insn followed by the further operands); static raw
+   words so that symbolic execution keeps the opcode and operand modes concrete where they are concrete */
+static uint64_t vp_raw1[(sizeof (struct MIR_insn) + 4 * sizeof (MIR_op_t)) / 8], vp_raw2[sizeof (struct MIR_insn) / 8];
+static MIR_insn_t vp_i1p, vp_retp;
+#define vp_i1 (*vp_i1p)
+#define vp_ret (*vp_retp)
+static reg_desc_t vp_rd[4];
+static MIR_type_t vp_reg_type[4]; /* registers 1..3 are declared with these types; other numbers are undeclared */
+#define ERRBIT(e) (1ul << (e))
+static reg_desc_t *vp_model_find_rd_by_reg (MIR_context_t ctx, MIR_reg_t reg, MIR_func_t func) {
+  (void) func;
+  if (reg >= 1 && reg <= 3) { vp_rd[reg].type = vp_reg_type[reg]; vp_rd[reg].reg = reg; return &vp_rd[reg]; }
+  MIR_get_error_func (ctx) (MIR_undeclared_func_reg_error, "undeclared reg");
+  return NULL;
+}
+static int vp_reg_declared (MIR_reg_t r) { return r >= 1 && r <= 3; }
+static int vp_mode_of_type (MIR_type_t t) { return t == MIR_T_F ? MIR_OP_FLOAT : t == MIR_T_D ? MIR_OP_DOUBLE : t == MIR_T_LD ? MIR_OP_LDOUBLE : MIR_OP_INT; }
+static void run_finish (const int code) {
+  MIR_context_t ctx = &vp_ctx;
+  vp_ctx_setup (code);
+  spec_desc_t s = spec_desc (code);
+  curr_func = &vp_func;
+  vp_func.name = "f"; vp_func.nres = 0; vp_func.nargs = 0; vp_func.vararg_p = nondet_int () != 0;
+  for (int r = 1; r <= 3; r++) {
+    int k = nondet_int ();
+    __CPROVER_assume (k >= 0 && k < 4);
+    vp_reg_type[r] = k == 0 ? MIR_T_I64 : k == 1 ? MIR_T_F : k == 2 ? MIR_T_D : MIR_T_LD;
+  }
+  vp_i1p = (MIR_insn_t) vp_raw1;
+  vp_retp = (MIR_insn_t) vp_raw2;
+  vp_i1.code = code; vp_i1.nops = s.nops;
+  vp_ret.code = MIR_RET; vp_ret.nops = 0;
+  DLIST_INIT (MIR_insn_t, vp_func.insns);
+  DLIST_APPEND (MIR_insn_t, vp_func.insns, vp_i1p);
+  DLIST_APPEND (MIR_insn_t, vp_func.insns, vp_retp);
+  vp_wf = 1; vp_allowed_errs = 0;
+  if (code == MIR_VA_START && !vp_func.vararg_p) { vp_wf = 0; vp_allowed_errs |= ERRBIT (MIR_vararg_func_error); }
+  for (int i = 0; i < 4; i++) {
+    if (i >= s.nops) break;
+    MIR_op_t *op = &vp_i1.ops[i];
+    int m = nondet_int ();
+    __CPROVER_assume (m == MIR_OP_REG || m == MIR_OP_INT || m == MIR_OP_UINT || m == MIR_OP_FLOAT || m == MIR_OP_DOUBLE
+                      || m == MIR_OP_LDOUBLE || m == MIR_OP_REF || m == MIR_OP_STR || m == MIR_OP_MEM || m == MIR_OP_LABEL);
+    op->mode = (MIR_op_mode_t) m;
+    int expected = s.mode[i], out = i == 0 && s.out0, vmode = m, undef_va = 0;
+    if (code == MIR_VA_ARG && i == 2) { __CPROVER_assume (m == MIR_OP_MEM); continue; } /* checked at creation */
+    if (m == MIR_OP_REG) {
+      op->u.reg = (MIR_reg_t) (nondet_int () & 7);
+      __CPROVER_assume (op->u.reg >= 1 && op->u.reg <= 4);
+      if (!vp_reg_declared (op->u.reg)) { vp_wf = 0; vp_allowed_errs |= ERRBIT (MIR_undeclared_func_reg_error); continue; }
+      vmode = vp_mode_of_type (vp_reg_type[op->u.reg]);
+    } else if (m == MIR_OP_MEM) {
+      int t = nondet_int ();
+      __CPROVER_assume (t >= MIR_T_I8 && t < MIR_T_BOUND);
+      op->u.mem.type = (MIR_type_t) t;
+      op->u.mem.base = (MIR_reg_t) (nondet_int () & 7); op->u.mem.index = (MIR_reg_t) (nondet_int () & 7);
+      __CPROVER_assume (op->u.mem.base <= 4 && op->u.mem.index <= 4);
+      op->u.mem.disp = nondet_int ();
+      /* MIR.md: the va_list operand of the va insns may be a memory of undefined type */
+      undef_va = t == MIR_T_UNDEF
+                 && ((code == MIR_VA_START && i == 0) || ((code == MIR_VA_ARG || code == MIR_VA_BLOCK_ARG) && i == 1)
+                     || (code == MIR_VA_END && i == 0));
+      if (!spec_scalar_type_p (t) && !undef_va) { vp_wf = 0; vp_allowed_errs |= ERRBIT (MIR_wrong_type_error); }
+      if (op->u.mem.base != 0 && !vp_reg_declared (op->u.mem.base)) { vp_wf = 0; vp_allowed_errs |= ERRBIT (MIR_undeclared_func_reg_error); }
+      else if (op->u.mem.base != 0 && vp_mode_of_type (vp_reg_type[op->u.mem.base]) != MIR_OP_INT) { vp_wf = 0; vp_allowed_errs |= ERRBIT (MIR_reg_type_error); }
+      if (op->u.mem.index != 0 && !vp_reg_declared (op->u.mem.index)) { vp_wf = 0; vp_allowed_errs |= ERRBIT (MIR_undeclared_func_reg_error); }
+      else if (op->u.mem.index != 0 && vp_mode_of_type (vp_reg_type[op->u.mem.index]) != MIR_OP_INT) { vp_wf = 0; vp_allowed_errs |= ERRBIT (MIR_reg_type_error); }
+      vmode = t == MIR_T_UNDEF ? MIR_OP_UNDEF : vp_mode_of_type ((MIR_type_t) t);
+    } else if (m == MIR_OP_UINT || m == MIR_OP_REF || m == MIR_OP_STR) {
+      vmode = MIR_OP_INT; /* unsigned immediates count as integers; references and strings are addresses */
+    }
+    if (undef_va) {
+      /* accepted as documented */
+    } else if (expected == MIR_OP_REG) {
+      if (m != MIR_OP_REG) { vp_wf = 0; vp_allowed_errs |= ERRBIT (MIR_op_mode_error); }
+    } else if (expected != MIR_OP_UNDEF && vmode != expected) {
+      vp_wf = 0; vp_allowed_errs |= ERRBIT (MIR_op_mode_error);
+    }
+    if (out && m != MIR_OP_REG && m != MIR_OP_MEM) { vp_wf = 0; vp_allowed_errs |= ERRBIT (MIR_out_op_error); }
+  }
+  if (code == MIR_JRET) { vp_wf = 0; vp_allowed_errs |= ERRBIT (MIR_vararg_func_error); } /* ret and jret must not be mixed */
+  vp_expected_err = -2; /* the error code is checked against the allowed set instead */
+  MIR_finish_func (ctx);
+  ENS (vp_wf, "an instruction with an operand MIR.md does not allow is never accepted");
+  ENS (curr_func == NULL, "a finished function is no longer the current one");
+  REACH ("accepted");
+}
+#define F(c) void h_finish_##c (void) { run_finish (c); }
+#include "harness/c15_finish_entries.inc"
+#endif
